@@ -1,5 +1,5 @@
 (* C08: the validator as REPAIRED by the fix proposed for the findings of C08
-   (build/c08_validate_fix.diff): transliteration of that version of
+   (checks/c08_proposed_fixes/validate.diff): transliteration of that version of
    ir/validate.go.  Differences from ValidatorModel.v (the pinned tree):
    * the context carries canBreak / canContinue / inContinuing: a switch clause
      sets canBreak; a loop body sets canBreak and canContinue; a continuing block
